@@ -272,14 +272,16 @@ func init() {
 			},
 			&engine.Enum[c13Len]{
 				Name: "affine-basis",
-				Rule: "for every length n in 1..1024: zero string, all-ones string and all 8n single-bit strings (they determine the affine map for that length); non-trivial = each distinct single-bit string",
+				Rule: "for every length n in 1..1100 (thorough: plus every 16th length up to 4112): zero string, all-ones string and all 8n single-bit strings (they determine the affine map for that length); non-trivial = each distinct single-bit string",
 				Gen: func(r *engine.Run, emit func(c13Len)) {
-					max := 1024
-					if r.Thorough() {
-						max = 4096
-					}
-					for n := 1; n <= max; n++ {
+					for n := 1; n <= 1100; n++ {
 						emit(c13Len{Len: n})
+					}
+					if r.Thorough() {
+						// up to the largest SCTE-35 section (4096 bytes), every 16th length
+						for n := 1104; n <= 4112; n += 16 {
+							emit(c13Len{Len: n})
+						}
 					}
 				},
 				Check: c13CheckAffine, Batch: 1,
